@@ -108,7 +108,9 @@ Definition run_C08 (c : sexp) : sexp :=
   let '(t, s1) := trace s0 (as_list (nth_s 1 c)) in
   let s2 := drop_all s1 in
   let s3 := step s2 (RunAll []) in
+  (* the two ghost flags the theorems exclude: fuel exhaustion, ownerless allocation *)
   if err (b_core s3) then Lst [Num (-99)] else
+  if unowned (b_core s3) then Lst [Num (-98)] else
   Lst [o0; Lst t;
        Lst [Lst (new_entries (length (clog (b_core s1))) (b_core s3));
             Lst (map (status (b_core s3)) (handles s3));
